@@ -134,7 +134,7 @@ def import_geogram_ascii(path):
             # cell sizrs are provided : the mesh is not tetrahedral
             for i in range(container_sizes[Chunk.Container.CELLS]-1):
                 n_corner_in_cell.append(chk.data[i+1] - chk.data[i])
-            n_corner_in_facet.append(container_sizes[Chunk.Container.CELL_CORNERS] - chk.data[-1])
+            n_corner_in_cell.append(container_sizes[Chunk.Container.CELL_CORNERS] - chk.data[-1])
             cell_ptr = chk.data
 
     if len(n_corner_in_facet)==0 and container_sizes[Chunk.Container.FACES]>0:
